@@ -438,6 +438,27 @@ impl World {
         })
     }
 
+    /// `n` applications send one datagram each and do not wait for anything (their bindings are opened - or fail to open -
+    /// behind them)
+    pub fn udp_fire(&self, n: usize) -> String {
+        if !self.udp {
+            return "no-udp".to_owned();
+        }
+        let cp = self.client_port;
+        for i in 0..n {
+            if let Ok(app) = std::net::UdpSocket::bind("127.0.0.1:0") {
+                let mut d = vec![0u8, 0, 0, 1, 127, 0, 0, 1, 0, 9];
+                d.extend_from_slice(format!("fire {}", i).as_bytes());
+                let _ = app.send_to(&d, ("127.0.0.1", cp));
+            }
+            if i % 16 == 15 {
+                std::thread::sleep(Duration::from_millis(20));
+            }
+        }
+        std::thread::sleep(Duration::from_millis(600));
+        "done".to_owned()
+    }
+
     pub fn udp_bind_many(&self, n: usize) -> String {
         if !self.udp {
             return "no-udp".to_owned();
